@@ -1,5 +1,7 @@
 import PtnModel.Props.C02
 import PtnModel.Proofs.HistEvoTwo
+import PtnModel.Proofs.HistEvoBoundary4
+import PtnModel.Proofs.HistEvoExample
 /-!
 # Property C02, TDVP / DMRG part (block sparsity is an invariant of the evolution operations)
 
@@ -25,9 +27,26 @@ What is proved:
   exponential oracle, over every field.
 * `local_step_sparse`, `bond_step_sparse`, `minimize_sparse`, `local_bond_sparse`: `_local_hamiltonian_step`,
   `_local_bond_step`, `_minimize_local_energy` return block-sparse tensors of the shape of their input when the
-  environment blocks are block sparse and square and `W` is a block-sparse MPO tensor.
+  environment blocks are block sparse and square and `W` is a block-sparse MPO tensor (`localH_sparse` of `Props/C02.lean`
+  gives the `H_eff`-step, `local_bond_sparse` its zero-site analogue).
 * `env_step_left_sparse`, `env_step_right_sparse`: the contraction steps keep `is_qsparse(B, [q, qH, -q])`.
-* `tdvp1_wf`, `step_wf_tdvp1`: single-site TDVP keeps the invariant.
+* Sweep invariant `HistWf.EvoSparse H qd s cl cr` (`Proofs/HistEvoInv.lean`): array sizes, every site tensor well-formed
+  w.r.t. the current charges, `BL[j]` (`j ≤ cl`) and `BR[j]` (`j ≥ cr`) square and block sparse w.r.t. the current
+  charges; established by the prologue (the initial right blocks by the code's own assertion), preserved by every loop
+  body of the four drivers.  QR steps: the reshaped `Q` factor and the `R`-push are block sparse by C11; two-site
+  updates: `split_mps_tensor` re-asserts the sparsity of its input and its outputs are reshaped `u`, `v` factors (C12).
+  No positivity of bond dimensions is assumed anywhere.
+* `tdvp1_wf`, `dmrg1_wf`, `tdvp2_wf`, `dmrg2_wf`: each driver maps a well-formed state to a well-formed state;
+  `step_wf_tdvp1`, `step_wf_evo`: the pool invariant is kept by the four operations; `step_wf_all`, `run_wf_all`,
+  `run_wf_all_prefix`: one call / any history of ANY operations of the model keeps `poolWF` (per-call side conditions:
+  `EvoOK` for evolution calls, `ScaleOK` for left-mode `compress`); `evo_compat_kept`: the side condition persists along
+  repeated evolutions.  The two-site methods additionally use the SVD shape clause and "the vector-norm oracle is not
+  positive on the empty vector" (a successful Lanczos run then excludes merged tensors with an axis of dimension zero, the
+  only input on which `split_matrix_svd` returns an ill-formed triple).
+* Boundary charges: `boundary_kept_tdvp2`, `boundary_kept_tdvp2_nonzero` (two-site TDVP, full clause);
+  `boundary_kept_dmrg1_contract` (single-site DMRG, `L ≥ 2`, non-zero state, contracts of C10);
+  `boundary_last_kept_dmrg1_partial`, `boundary_last_kept_dmrg2_partial` (trailing charge only, shape clause only).
+  Not proved: `qD[0]` for two-site DMRG and for single-site DMRG without contracts (see `obligations/C02.json`).
 -/
 set_option linter.unusedSectionVars false
 namespace Ptn.C02
@@ -217,6 +236,74 @@ theorem step_wf_all {k : StepKernels 𝕂 ℝ} (hk : KernelShapes k) (habs : k.d
   | false => exact step_wf_of_scale hk habs hevo hp h hsc
   | true => exact step_wf_evo hk hn0 hevo hp hc h
 
+/-! ## the side condition persists -/
+
+theorem evoOK_set {p : Pool 𝕂} {iH iψ : Nat} {H : MPO 𝕂} {ψ ψ' : MPS 𝕂} (hi : p[iH]? = some (.mpo H))
+    (hj : p[iψ]? = some (.mps ψ)) (hqd : ψ'.qd = ψ.qd) (hc : EvoCompat H ψ) :
+    ∀ H' ψ'', (p.set iψ (.mps ψ'))[iH]? = some (.mpo H') → (p.set iψ (.mps ψ'))[iψ]? = some (.mps ψ'') →
+      EvoCompat H' ψ'' := by
+  intro H' ψ'' h1 h2
+  have hne : iψ ≠ iH := by
+    intro e
+    rw [e, hi] at hj
+    cases hj
+  have hlt : iψ < p.length := (List.getElem?_eq_some_iff.1 hj).1
+  rw [List.getElem?_set_ne hne, hi] at h1
+  rw [List.getElem?_set_self hlt] at h2
+  cases h1
+  cases h2
+  exact ⟨hc.1.trans hqd.symm, hc.2⟩
+
+/-- **`evo_compat_kept`**: an evolution call keeps the physical charges of the state and does not touch the Hamiltonian, so
+the compatibility condition for the same pair of slots holds again after the call (C19 frame property, restated here to
+make `AllOKRun` checkable along repeated evolutions). -/
+theorem evo_compat_kept {k : StepKernels 𝕂 ℝ} {p p' : Pool 𝕂} {op : HOp 𝕂 ℝ} {out : List ℝ}
+    (hevo : HOp.isEvo op = true) (hc : EvoOK p op) (h : step k p op = .ok (p', out)) : EvoOK p' op := by
+  cases op with
+  | tdvp1 iH iψ dt numsteps numiter =>
+    simp only [step] at h
+    split at h
+    · rename_i H ψ hi hj
+      simp only [Dense.bind_ok, Dense.pure_ok, Prod.mk.injEq] at h
+      obtain ⟨⟨ψ', nrm⟩, hrun, rfl, _⟩ := h
+      obtain ⟨s0, s, _, _, _, rfl⟩ := integrate1_unfold hrun
+      exact evoOK_set hi hj rfl (hc H ψ hi hj)
+    · cases h
+  | tdvp2 iH iψ dt numsteps numiter tol =>
+    simp only [step] at h
+    split at h
+    · rename_i H ψ hi hj
+      simp only [Dense.bind_ok, Dense.pure_ok, Prod.mk.injEq] at h
+      obtain ⟨⟨ψ', nrm⟩, hrun, rfl, _⟩ := h
+      obtain ⟨s0, s, _, _, _, rfl⟩ := integrate2_unfold hrun
+      exact evoOK_set hi hj rfl (hc H ψ hi hj)
+    · cases h
+  | dmrg1 iH iψ numsweeps numiter =>
+    simp only [step] at h
+    split at h
+    · rename_i H ψ hi hj
+      simp only [Dense.bind_ok, Dense.pure_ok, Prod.mk.injEq] at h
+      obtain ⟨⟨ψ', en⟩, hrun, rfl, _⟩ := h
+      obtain ⟨s0, nrm, s, _, _, rfl⟩ := dmrgSinglesite_unfold hrun
+      exact evoOK_set hi hj rfl (hc H ψ hi hj)
+    · cases h
+  | dmrg2 iH iψ numsweeps numiter tol =>
+    simp only [step] at h
+    split at h
+    · rename_i H ψ hi hj
+      simp only [Dense.bind_ok, Dense.pure_ok, Prod.mk.injEq] at h
+      obtain ⟨⟨ψ', en⟩, hrun, rfl, _⟩ := h
+      have hqd : ψ'.qd = ψ.qd := by
+        unfold dmrgTwosite at hrun
+        simp only [Dense.bind_ok] at hrun
+        obtain ⟨⟨s0, nrm⟩, _, ⟨s, en'⟩, _, hrun⟩ := hrun
+        rw [Dense.pure_ok] at hrun
+        injection hrun with ha _
+        rw [← ha]; rfl
+      exact evoOK_set hi hj hqd (hc H ψ hi hj)
+    · cases h
+  | _ => cases hevo
+
 /-! ## histories with all operations -/
 
 /-- along the history every evolution call has a compatible Hamiltonian and every left-mode `compress` returns a
@@ -248,5 +335,365 @@ theorem run_wf_all_prefix {p p1 : Pool 𝕂} {h1 h2 : History 𝕂 ℝ}
     (hk : ∀ kop ∈ h1 ++ h2, KernelShapes kop.1 ∧ kop.1.dabs 0 = 0 ∧ ¬ 0 < kop.1.cnorm [])
     (hp : poolWF p = true) (hr : run p h1 = .ok p1) (hok : AllOKRun p h1) : poolWF p1 = true :=
   run_wf_all (fun kop hm => hk kop (List.mem_append_left _ hm)) hp hr hok
+
+/-! ## A.3 boundary charges (two-site TDVP) -/
+
+/-- **A.3 (TDVP2)** `boundary_kept_tdvp2`: two-site TDVP never rewrites `qD[0]`, `qD[L]` in its sweeps (a two-site update at
+`i, i+1` rewrites `qD[i+1]`, `1 ≤ i+1 ≤ L-1`); the right-orthonormalization of the prologue keeps them when the returned
+norm is non-zero.  Admissible input, QR shape clause only, every SVD / truncation / Krylov oracle. -/
+theorem boundary_kept_tdvp2 {k : EvoKernels 𝕂 ℝ} (hshape : ∀ B, ShapeAt k.dqr B) {H : MPO 𝕂} {ψ ψ' : MPS 𝕂} {dt : 𝕂}
+    {numsteps numiter : Nat} {tol nrm : ℝ} (hadm : Admissible ψ)
+    (h : integrateLocalTwosite k H ψ dt numsteps numiter tol = .ok (ψ', nrm)) (hn : nrm ≠ 0) :
+    ψ'.qD.head? = ψ.qD.head? ∧ ψ'.qD.getLast? = ψ.qD.getLast? :=
+  tdvp2_boundary hshape hadm h hn
+
+/-- **A.3 (TDVP2, non-zero state)** for a non-zero state and a kernel with the full QR contract of C01. -/
+theorem boundary_kept_tdvp2_nonzero {k : EvoKernels 𝕂 ℝ} (hc : C01.QRKernel k.dqr) {H : MPO 𝕂} {ψ ψ' : MPS 𝕂} {dt : 𝕂}
+    {numsteps numiter : Nat} {tol nrm : ℝ} (hadm : Admissible ψ)
+    (h : integrateLocalTwosite k H ψ dt numsteps numiter tol = .ok (ψ', nrm))
+    {σ : List Nat} (hσ : σ ∈ Env.digitsU ψ.qd.length ψ.A.length) (hne : ψ.amp σ ≠ 0) :
+    ψ'.qD.head? = ψ.qD.head? ∧ ψ'.qD.getLast? = ψ.qD.getLast? :=
+  tdvp2_boundary_nonzero hc hadm h hσ hne
+
+/-! ## A.3 boundary charges (DMRG, trailing charge only) -/
+
+/-- **A.3 (DMRG1, partial)** `calculate_ground_state_local_singlesite` keeps the trailing bond charges `qD[L]` when the norm
+factor of its initial right-orthonormalization is non-zero (the sweeps never rewrite `qD[L]`).
+Partial: nothing is proved about `qD[0]`, which the final `local_orthonormalize_right_qr` of the first site rewrites
+(to the same charge unless that QR takes its dummy branch, i.e. unless the first tensor is zero after the sweeps). -/
+theorem boundary_last_kept_dmrg1_partial {k : EvoKernels 𝕂 ℝ} (hshape : ∀ B, ShapeAt k.dqr B) {H : MPO 𝕂}
+    {ψ ψ' : MPS 𝕂} {numsweeps numiter : Nat} {en : List ℝ} (hadm : Admissible ψ)
+    (h : dmrgSinglesite k H ψ numsweeps numiter = .ok (ψ', en))
+    (hn : ∀ ψ1 nrm, MPS.orthonormalize (ρ := ℝ) k.dqr ψ false = .ok (ψ1, nrm) → nrm ≠ 0) :
+    ψ'.qD.getLast? = ψ.qD.getLast? :=
+  dmrg1_last hshape hadm h hn
+
+/-- **A.3 (DMRG2, partial)** the same for `calculate_ground_state_local_twosite` (same gap: `qD[0]`). -/
+theorem boundary_last_kept_dmrg2_partial {k : EvoKernels 𝕂 ℝ} (hshape : ∀ B, ShapeAt k.dqr B) {H : MPO 𝕂}
+    {ψ ψ' : MPS 𝕂} {numsweeps numiter : Nat} {tol : ℝ} {en : List ℝ} (hadm : Admissible ψ)
+    (h : dmrgTwosite k H ψ numsweeps numiter tol = .ok (ψ', en))
+    (hn : ∀ ψ1 nrm, MPS.orthonormalize (ρ := ℝ) k.dqr ψ false = .ok (ψ1, nrm) → nrm ≠ 0) :
+    ψ'.qD.getLast? = ψ.qD.getLast? :=
+  dmrg2_last hshape hadm h hn
+
+/-- the hypothesis `hn` of the two theorems above holds for a non-zero state and a kernel with the full QR contract of
+C01 -/
+theorem dmrg_prologue_norm_ne_zero {dqr : Mat 𝕂 → Mat 𝕂 × Mat 𝕂} (hc : C01.QRKernel dqr) {ψ : MPS 𝕂}
+    (hadm : Admissible ψ) {σ : List Nat} (hσ : σ ∈ Env.digitsU ψ.qd.length ψ.A.length) (hne : ψ.amp σ ≠ 0) :
+    ∀ ψ1 nrm, MPS.orthonormalize (ρ := ℝ) dqr ψ false = .ok (ψ1, nrm) → nrm ≠ 0 :=
+  ortho_norm_ne_zero hc hadm hσ hne
+
+/-- **A.3 (DMRG1, contracts)** `boundary_kept_dmrg1_contract`: for a non-zero admissible state, `L ≥ 2` and kernels
+satisfying the contracts of C10 (`Evo.SweepCtx`: full QR contract of C01, norm contract, contract of `eigh_tridiagonal` at
+the Lanczos runs, Hermitian shaped Hamiltonian), single-site DMRG keeps both `qD[0]` and `qD[L]`.  Mechanism for
+`qD[0]`: the final `local_orthonormalize_right_qr` of the first site rewrites it with the negated intermediate charges of a
+block QR with the single column charge `-qD[0][0]`; outside the dummy branch every intermediate charge is a common charge
+and there is exactly one; the dummy branch needs a zero first tensor, excluded because the state held by the sweep has
+norm one (C10 invariant). -/
+theorem boundary_kept_dmrg1_contract {k : EvoKernels 𝕂 ℝ} {H : MPO 𝕂} {ψ ψ' : MPS 𝕂} {numsweeps numiter : Nat}
+    {en : List ℝ} (ctx : SweepCtx k H ψ.qd numiter) (hL2 : 2 ≤ H.A.length) (hadm : Admissible ψ)
+    (h : dmrgSinglesite k H ψ numsweeps numiter = .ok (ψ', en))
+    {σ : List Nat} (hσ : σ ∈ Env.digitsU ψ.qd.length ψ.A.length) (hne : ψ.amp σ ≠ 0) :
+    ψ'.qD.head? = ψ.qD.head? ∧ ψ'.qD.getLast? = ψ.qD.getLast? :=
+  dmrg1_boundary_contract ctx hL2 hadm h hσ hne
+
+/-! ## Non-vacuity
+
+* Krylov level: an actual run over `ℚ` (kernel evaluation).
+* Local level: runs over `ℂ` with the kernels `Evo.exK` of `Proofs/EvoExample.lean` (one Lanczos iteration, for which the
+  Krylov routines provably return), `σ_z` between trivial blocks, start tensor `(1, 0)`.
+* Driver level: an actual run of single-site TDVP (one time step, one Lanczos iteration) on the one-site pool
+  `[σ_z, |0⟩]` over `ℂ` (`HistWf.tdvp1_one_site_ok`: the run returns for every kernel family with the QR contract of C01,
+  the norm contract and the trivial eigen-decomposition of `1 × 1` matrices), used for `step_wf_tdvp1`, `step_wf_all`,
+  `run_wf_all`.  For `dmrg1`, `tdvp2`, `dmrg2` and longer chains the hypothesis "the call returns `.ok`" is witnessed (as
+  for C08 / C10) by the runs of the correspondence check (`./check C02`: histories with `tdvp1`, `tdvp2`, `dmrg1`,
+  `dmrg2` steps, model side over Gaussian rationals); the examples show that all other hypotheses (kernel clauses,
+  well-formed pool, compatible Hamiltonian, the side conditions of a history containing all four evolution operations)
+  are jointly satisfiable. -/
+
+/-- a symmetric `3 × 3` matrix that does not couple position `1` to the others -/
+def exM : Mat ℚ := ⟨3, 3, fun i k => if i = 1 ∨ k = 1 then (if i = k then 3 else 0) else (if i = k then 1 else 2)⟩
+
+theorem exM_sector : ∀ x : List ℚ, InSector (fun i => i = 1) x → InSector (fun i => i = 1) (matvec exM x) := by
+  intro x hx i hi
+  subst hi
+  have h1 := hx 1 rfl
+  simp [matvec, sumRange, List.range_succ, exM, h1]
+  rfl
+
+/-- non-vacuity of `krylov_sector_closed` / `lanczos_sector_closed`: an actual run (two Lanczos iterations, constant
+norm oracle, an eigen-solver oracle returning the all-ones matrix, `dexp = id`) over `ℚ` -/
+example : ∃ y : List ℚ,
+    expmKrylov (matvec exM) (fun _ => (1 : ℚ)) (fun al _ => (al, ⟨al.length, al.length, fun _ _ => 1⟩)) id id
+      [1, 0, 5] 1 2 true = .ok y ∧ y.length = 3 ∧ InSector (fun i => i = 1) y := by
+  have hl : (match expmKrylov (matvec exM) (fun _ => (1 : ℚ)) (fun al _ => (al, ⟨al.length, al.length, fun _ _ => 1⟩)) id id
+      [1, 0, 5] 1 2 true with | .ok y => y.length == 3 && decide (y.getD 0 0 ≠ 0) | .error _ => false) = true := by
+    decide +kernel
+  obtain ⟨y, hy⟩ := ok_of_isOk (x := expmKrylov (matvec exM) (fun _ => (1 : ℚ))
+    (fun al _ => (al, ⟨al.length, al.length, fun _ _ => 1⟩)) id id [1, 0, 5] 1 2 true) (by decide +kernel)
+  rw [hy] at hl
+  refine ⟨y, hy, by simpa using (Bool.and_eq_true_iff.1 hl).1, ?_⟩
+  refine krylov_sector_closed exM_sector ?_ hy
+  intro i hi
+  subst hi
+  rfl
+/-- `σ_z` as a one-site MPO tensor with trivial bonds (block sparse for the charges `[0, 1]`) -/
+noncomputable def exWz : T4 ℂ := ⟨2, 2, 1, 1, fun s t _ _ => if s = t then (if s = 0 then 1 else -1) else 0⟩
+
+theorem exWz_sparse : SparseT4 exWz [0, 1] [0] [0] := by
+  intro s t a b hs ht ha hb hne
+  have hs' : s < 2 := hs
+  have ht' : t < 2 := ht
+  have ha' : a < 1 := ha
+  have hb' : b < 1 := hb
+  interval_cases s <;> interval_cases t <;> interval_cases a <;> interval_cases b <;> simp [exWz] at hne ⊢
+
+theorem ones_blockSparse : BlockSparse (ones111 : T3 ℂ) [0] [0] := by
+  intro a w b ha hw hb _
+  have ha' : a < 1 := ha
+  have hw' : w < 1 := hw
+  have hb' : b < 1 := hb
+  interval_cases a; interval_cases w; interval_cases b
+  rfl
+
+theorem exA_sparse : SparseT3 Evo.exA [0, 1] [0] [0] := by
+  intro s a b hs ha hb hne
+  have hs' : s < 2 := hs
+  have ha' : a < 1 := ha
+  have hb' : b < 1 := hb
+  interval_cases s <;> interval_cases a <;> interval_cases b <;> simp [Evo.exA] at hne ⊢
+
+/-- non-vacuity of `local_step_sparse`: all hypotheses including the successful run (kernels `Evo.exK` over `ℂ`, one
+Lanczos iteration, imaginary time step) -/
+example : ∃ A1 : T3 ℂ, localHamiltonianStep exK ones111 ones111 exWz Evo.exA Complex.I 1 = .ok A1 ∧
+    BlockSparse (ones111 : T3 ℂ) [0] [0] ∧ SparseT4 exWz [0, 1] [0] [0] ∧ exWz.d0 = exWz.d1 ∧
+    (ones111 : T3 ℂ).d2 = (ones111 : T3 ℂ).d0 ∧ SparseT3 Evo.exA [0, 1] [0] [0] ∧ SparseT3 A1 [0, 1] [0] [0] := by
+  obtain ⟨A1, h⟩ := localStep_ok_one (k := exK) rfl (L := ones111) (R := ones111) (W := exWz) exA_pos Complex.I
+  exact ⟨A1, h, ones_blockSparse, exWz_sparse, rfl, rfl, exA_sparse,
+    (local_step_sparse h ones_blockSparse ones_blockSparse exWz_sparse rfl rfl rfl exA_sparse).1⟩
+
+/-- non-vacuity of `minimize_sparse` -/
+example : ∃ (en : ℝ) (Aopt : T3 ℂ), minimizeLocalEnergy exK ones111 ones111 exWz Evo.exA 1 = .ok (en, Aopt) ∧
+    SparseT3 Aopt [0, 1] [0] [0] := by
+  obtain ⟨⟨en, Aopt⟩, h⟩ := minimize_ok_one (k := exK) rfl (L := ones111) (R := ones111) (W := exWz) exA_pos
+  exact ⟨en, Aopt, h, (minimize_sparse h ones_blockSparse ones_blockSparse exWz_sparse rfl rfl rfl exA_sparse).1⟩
+
+theorem exC_sparse : Sparse exC [0] [0] := by
+  intro i j hi hj _
+  have hi' : i < 1 := hi
+  have hj' : j < 1 := hj
+  interval_cases i; interval_cases j
+  rfl
+
+/-- non-vacuity of `bond_step_sparse` -/
+example : ∃ C1 : Mat ℂ, localBondStep exK ones111 ones111 exC Complex.I 1 = .ok C1 ∧ Sparse exC [0] [0] ∧
+    Sparse C1 [0] [0] := by
+  obtain ⟨C1, h⟩ := bondStep_ok_one (k := exK) rfl (L := ones111) (R := ones111) exC_pos Complex.I
+  exact ⟨C1, h, exC_sparse, (bond_step_sparse h ones_blockSparse ones_blockSparse rfl rfl exC_sparse).1⟩
+
+/-- non-vacuity of `env_step_left_sparse`, `env_step_right_sparse`: the steps run on `Evo.exA`, `σ_z` and the trivial block -/
+example : (∃ T : T3 ℂ, Op.opStepLeft Evo.exA Evo.exA exWz ones111 = .ok T ∧ BlockSparse T [0] [0]) ∧
+    ∃ T : T3 ℂ, Op.opStepRight Evo.exA Evo.exA exWz ones111 = .ok T ∧ BlockSparse T [0] [0] := by
+  obtain ⟨T, hT, _⟩ := Env.opStepLeft_ok Evo.exA Evo.exA exWz (ones111 : T3 ℂ) rfl rfl rfl rfl rfl
+  obtain ⟨T', hT', _⟩ := Env.opStepRight_ok Evo.exA Evo.exA exWz (ones111 : T3 ℂ) rfl rfl rfl rfl rfl
+  have h1 : Op.opStepLeft Evo.exA Evo.exA exWz (ones111 : T3 ℂ) = .ok T := hT
+  have h2 : Op.opStepRight Evo.exA Evo.exA exWz (ones111 : T3 ℂ) = .ok T' := hT'
+  exact ⟨⟨T, h1, (env_step_left_sparse h1 exA_sparse exWz_sparse ones_blockSparse).1⟩,
+    ⟨T', h2, (env_step_right_sparse h2 exA_sparse exWz_sparse ones_blockSparse).1⟩⟩
+
+/-! ### driver level: kernels, pool and histories over `ℂ` -/
+
+/-- kernels over `ℂ`: the QR kernel `Ortho.realQR`, an SVD oracle returning zero factors of the right shapes, the 2-norm,
+the eigen-decomposition of `1 × 1` matrices, `dexp ≡ 1` -/
+noncomputable def exKS : StepKernels ℂ ℝ where
+  dqr := realQR
+  svd := ⟨fun B => (⟨B.m, min B.m B.n, fun _ _ => 0⟩, List.replicate (min B.m B.n) 0, ⟨min B.m B.n, B.n, fun _ _ => 0⟩),
+    fun _ => 1, fun s => List.range s.length⟩
+  dabs := fun z => ‖z‖
+  divR := fun z r => z / (r : ℂ)
+  dsqrt := Real.sqrt
+  cnorm := sqrtNorm
+  deigh := triv1
+  dexp := fun _ => 1
+  dexpm := id
+  half := ((1 / 2 : ℝ) : ℂ)
+
+theorem exKS_shapes : KernelShapes exKS :=
+  ⟨realQR_contract.shape, fun _ _ _ => ⟨rfl, rfl, by simp [exKS], rfl, rfl⟩⟩
+
+theorem exKS_norm0 : ¬ 0 < exKS.cnorm [] := by
+  show ¬ 0 < sqrtNorm ([] : List ℂ)
+  simp [sqrtNorm, sqNorm]
+
+theorem exOC_wf : exOC.wellFormed = true := by
+  refine (mpo_wellFormed_iff_idx exOC).2 ⟨rfl, ?_⟩
+  intro i hi
+  have hi' : i < 2 := hi
+  interval_cases i
+  · refine ⟨rfl, rfl, rfl, rfl, ?_⟩
+    intro s t a b hs ht ha hb hne
+    have hs' : s < 2 := hs
+    have ht' : t < 2 := ht
+    have ha' : a < 1 := ha
+    have hb' : b < 2 := hb
+    interval_cases s <;> interval_cases t <;> interval_cases a <;> interval_cases b <;> simp [exOC] at hne ⊢
+  · refine ⟨rfl, rfl, rfl, rfl, ?_⟩
+    intro s t a b hs ht ha hb hne
+    have hs' : s < 2 := hs
+    have ht' : t < 2 := ht
+    have ha' : a < 2 := ha
+    have hb' : b < 1 := hb
+    interval_cases s <;> interval_cases t <;> interval_cases a <;> interval_cases b <;> simp [exOC] at hne ⊢
+
+/-- the pool `[Z ⊗ 1 + 1 ⊗ Z, |01⟩ + i|10⟩]` -/
+noncomputable def exPoolE : Pool ℂ := [.mpo exOC, .mps exψC]
+
+theorem exPoolE_wf : poolWF exPoolE = true := by
+  rw [poolWF_iff]
+  intro o ho
+  simp only [exPoolE, List.mem_cons, List.not_mem_nil, or_false] at ho
+  rcases ho with rfl | rfl
+  · exact exOC_wf
+  · exact exψC_adm.wf
+
+theorem exCompat : EvoCompat exOC exψC := ⟨rfl, rfl⟩
+
+/-- a history with all four evolution operations and a copy -/
+noncomputable def exHistE : History ℂ ℝ :=
+  [(exKS, .tdvp1 0 1 Complex.I 1 1), (exKS, .dmrg1 0 1 1 1), (exKS, .tdvp2 0 1 Complex.I 1 1 0),
+   (exKS, .dmrg2 0 1 1 1 0), (exKS, .copy 1)]
+
+
+/-- non-vacuity of `tdvp1_wf`, `dmrg1_wf`, `tdvp2_wf`, `dmrg2_wf`, `step_wf_tdvp1`, `step_wf_evo`, `step_wf_all` (all
+hypotheses other than the run): kernel clauses, well-formed pool, compatible Hamiltonian -/
+example : KernelShapes exKS ∧ exKS.dabs 0 = 0 ∧ ¬ 0 < exKS.cnorm [] ∧ poolWF exPoolE = true ∧
+    exOC.wellFormed = true ∧ exψC.wellFormed = true ∧ EvoCompat exOC exψC ∧ Admissible exψC ∧
+    EvoOK exPoolE (.tdvp2 0 1 Complex.I 1 1 0) :=
+  ⟨exKS_shapes, by simp [exKS], exKS_norm0, exPoolE_wf, exOC_wf, exψC_adm.wf, exCompat, exψC_adm, by
+    intro H ψ hH hψ
+    simp only [exPoolE, List.getElem?_cons_zero, List.getElem?_cons_succ, Option.some.injEq, Obj.mpo.injEq,
+      Obj.mps.injEq] at hH hψ
+    subst hH hψ
+    exact exCompat⟩
+
+/-- non-vacuity of `run_wf_all`: the side conditions of a history with all four evolution operations on the same pair
+of slots hold (`evo_compat_kept` carries the compatibility along) -/
+example : (∀ kop ∈ exHistE, KernelShapes kop.1 ∧ kop.1.dabs 0 = 0 ∧ ¬ 0 < kop.1.cnorm []) ∧
+    poolWF exPoolE = true ∧ AllOKRun exPoolE exHistE := by
+  have hE : ∀ (p : Pool ℂ), EvoOK p (.tdvp1 0 1 Complex.I 1 1) →
+      (EvoOK p (.dmrg1 0 1 1 1) ∧ EvoOK p (.tdvp2 0 1 Complex.I 1 1 0) ∧ EvoOK p (.dmrg2 0 1 1 1 0)) :=
+    fun p h => ⟨h, h, h⟩
+  have h0 : EvoOK exPoolE (.tdvp1 0 1 Complex.I 1 1) := by
+    intro H ψ hH hψ
+    simp only [exPoolE, List.getElem?_cons_zero, List.getElem?_cons_succ, Option.some.injEq, Obj.mpo.injEq,
+      Obj.mps.injEq] at hH hψ
+    subst hH hψ
+    exact exCompat
+  refine ⟨?_, exPoolE_wf, ?_⟩
+  · intro kop hk
+    simp only [exHistE, List.mem_cons, List.not_mem_nil, or_false] at hk
+    rcases hk with rfl | rfl | rfl | rfl | rfl <;> exact ⟨exKS_shapes, by simp [exKS], exKS_norm0⟩
+  · refine ⟨h0, fun p1 out h1 => ⟨trivial, ?_⟩⟩
+    have e1 : EvoOK p1 (.tdvp1 0 1 Complex.I 1 1) := evo_compat_kept rfl h0 h1
+    refine ⟨(hE p1 e1).1, fun p2 out h2 => ⟨trivial, ?_⟩⟩
+    have e2 : EvoOK p2 (.tdvp1 0 1 Complex.I 1 1) := evo_compat_kept (op := .dmrg1 0 1 1 1) rfl e1 h2
+    refine ⟨(hE p2 e2).2.1, fun p3 out h3 => ⟨trivial, ?_⟩⟩
+    have e3 : EvoOK p3 (.tdvp1 0 1 Complex.I 1 1) := evo_compat_kept (op := .tdvp2 0 1 Complex.I 1 1 0) rfl e2 h3
+    refine ⟨(hE p3 e3).2.2, fun p4 out h4 => ⟨trivial, ?_⟩⟩
+    exact ⟨trivial, fun p5 out h5 => ⟨trivial, trivial⟩⟩
+
+/-- non-vacuity of `boundary_kept_tdvp2*`, `boundary_last_kept_dmrg*_partial`, `dmrg_prologue_norm_ne_zero` (hypotheses
+other than the run): the QR kernel `realQR` satisfies the contract of C01, `exψC` is admissible and non-zero -/
+example : ∃ σ : List Nat, C01.QRKernel exKS.evo.dqr ∧ (∀ B, ShapeAt exKS.evo.dqr B) ∧ Admissible exψC ∧
+    σ ∈ Env.digitsU exψC.qd.length exψC.A.length ∧ exψC.amp σ ≠ 0 := by
+  have hne : ∑ s ∈ Env.digitsU exψC.qd.length exψC.A.length, ‖exψC.amp s‖ ^ 2 ≠ 0 := by
+    rw [exψC_normsq]; norm_num
+  obtain ⟨σ, hσ, h0⟩ := Finset.exists_ne_zero_of_sum_ne_zero hne
+  refine ⟨σ, ⟨realQR_contract, realQR_realDiag⟩, realQR_contract.shape, exψC_adm, hσ, fun h => h0 ?_⟩
+  rw [h]; simp
+
+/-- non-vacuity of `boundary_kept_dmrg1_contract` (hypotheses other than the run): the kernels `Evo.exK` satisfy the
+contracts of C10 for the Hermitian two-site Hamiltonian `exOC` with one Lanczos iteration, `exψC` is admissible -/
+example : SweepCtx exK exOC exψC.qd 1 ∧ 2 ≤ exOC.A.length ∧ Admissible exψC := ⟨exK_ctx, by decide, exψC_adm⟩
+
+/-! ### an actual driver-level run: single-site TDVP on one site -/
+
+/-- the one-site Hamiltonian `σ_z` and the one-site state `|0⟩` (charges `[0, 1]`, trivial bonds) -/
+noncomputable def exH1 : MPO ℂ := ⟨[0, 1], [[0], [0]], [exWz]⟩
+noncomputable def exψ1 : MPS ℂ := ⟨[0, 1], [[0], [0]], [Evo.exA]⟩
+noncomputable def exPool1 : Pool ℂ := [.mpo exH1, .mps exψ1]
+
+theorem exψ1_adm : Admissible exψ1 := by
+  refine ⟨(wellFormed_iff_idx exψ1).2 ⟨rfl, ?_⟩, by decide, by simp [exψ1], by simp [exψ1], rfl, rfl⟩
+  intro i hi
+  have hi' : i < 1 := hi
+  interval_cases i
+  exact ⟨rfl, rfl, rfl, exA_sparse⟩
+
+theorem exH1_wf : exH1.wellFormed = true := by
+  refine (mpo_wellFormed_iff_idx exH1).2 ⟨rfl, ?_⟩
+  intro i hi
+  have hi' : i < 1 := hi
+  interval_cases i
+  exact ⟨rfl, rfl, rfl, rfl, exWz_sparse⟩
+
+theorem exPool1_wf : poolWF exPool1 = true := by
+  rw [poolWF_iff]
+  intro o ho
+  simp only [exPool1, List.mem_cons, List.not_mem_nil, or_false] at ho
+  rcases ho with rfl | rfl
+  · exact exH1_wf
+  · exact exψ1_adm.wf
+
+theorem exPool1_ok : EvoOK exPool1 (.tdvp1 0 1 Complex.I 1 1) := by
+  intro H ψ hH hψ
+  simp only [exPool1, List.getElem?_cons_zero, List.getElem?_cons_succ, Option.some.injEq, Obj.mpo.injEq,
+    Obj.mps.injEq] at hH hψ
+  subst hH hψ
+  exact ⟨rfl, rfl⟩
+
+/-- the call `integrate_local_singlesite(σ_z, |0⟩, i, 1, 1)` on the pool returns (`HistWf.tdvp1_one_site_ok`) -/
+theorem exPool1_step : ∃ p' out, step exKS exPool1 (.tdvp1 0 1 Complex.I 1 1) = .ok (p', out) := by
+  obtain ⟨⟨ψ', nrm⟩, hrun⟩ := tdvp1_one_site_ok (k := exKS.evo) ⟨realQR_contract, realQR_realDiag⟩ sqrtNorm_contract rfl
+    (H := exH1) (W := exWz) exψ1_adm rfl rfl rfl Complex.I
+  refine ⟨exPool1.set 1 (.mps ψ'), [nrm], ?_⟩
+  show (do
+    let (ψ', nrm) ← integrateLocalSinglesite exKS.evo exH1 exψ1 Complex.I 1 1
+    pure (exPool1.set 1 (.mps ψ'), [nrm]) : Except Err (Pool ℂ × List ℝ)) = _
+  rw [hrun]
+  rfl
+
+/-- **non-vacuity of `step_wf_tdvp1`, `step_wf_evo`, `step_wf_all`, `tdvp1_wf` including the run**: one time step of
+single-site TDVP (one Lanczos iteration) on the pool `[σ_z, |0⟩]` returns, and the new pool is well-formed -/
+example : ∃ p' out, KernelShapes exKS ∧ exKS.dabs 0 = 0 ∧ ¬ 0 < exKS.cnorm [] ∧ poolWF exPool1 = true ∧
+    EvoOK exPool1 (.tdvp1 0 1 Complex.I 1 1) ∧ step exKS exPool1 (.tdvp1 0 1 Complex.I 1 1) = .ok (p', out) ∧
+    poolWF p' = true := by
+  obtain ⟨p', out, hs⟩ := exPool1_step
+  exact ⟨p', out, exKS_shapes, by simp [exKS], exKS_norm0, exPool1_wf, exPool1_ok, hs,
+    step_wf_all exKS_shapes (by simp [exKS]) exKS_norm0 exPool1_wf exPool1_ok hs trivial⟩
+
+/-- **non-vacuity of `run_wf_all` including the run**: the history "one TDVP step, then copy the evolved state" -/
+example : ∃ p', run exPool1 [(exKS, .tdvp1 0 1 Complex.I 1 1), (exKS, .copy 1)] = .ok p' ∧ p'.length = 3 ∧
+    poolWF p' = true := by
+  obtain ⟨p1, out, hs⟩ := exPool1_step
+  have hl : p1.length = 2 := by
+    have := hs
+    simp only [step] at this
+    split at this
+    · simp only [Dense.bind_ok, Dense.pure_ok, Prod.mk.injEq] at this
+      obtain ⟨_, _, rfl, _⟩ := this
+      simp [exPool1]
+    · cases this
+  obtain ⟨o, ho⟩ : ∃ o, p1[1]? = some o := by
+    rw [List.getElem?_eq_getElem (by omega)]; exact ⟨_, rfl⟩
+  have hc : step exKS p1 (.copy 1) = .ok (p1 ++ [o], []) := by simp only [step, ho]
+  have hr : run exPool1 [(exKS, .tdvp1 0 1 Complex.I 1 1), (exKS, .copy 1)] = .ok (p1 ++ [o]) :=
+    run_cons_ok.2 ⟨p1, out, hs, run_cons_ok.2 ⟨_, _, hc, rfl⟩⟩
+  refine ⟨p1 ++ [o], hr, by simp [hl], ?_⟩
+  refine run_wf_all ?_ exPool1_wf hr ?_
+  · intro kop hk
+    simp only [List.mem_cons, List.not_mem_nil, or_false] at hk
+    rcases hk with rfl | rfl <;> exact ⟨exKS_shapes, by simp [exKS], exKS_norm0⟩
+  · exact ⟨exPool1_ok, fun _ _ _ => ⟨trivial, trivial, fun _ _ _ => ⟨trivial, trivial⟩⟩⟩
 
 end Ptn.C02
